@@ -30,6 +30,8 @@ Simplifications (the correspondence run keeps inside them):
   `IncrementTimeoutCount` is unreachable for rounds made by `NewRound` and is left out;
 * the ranked miner list of `rankTimeoutCounters` (a `rand.Perm` of the sorted pool) is an argument of the
   operation (DESIGN §3.3); Go `int` arithmetic on the timeout count wraps at 64 bits (`wrap64`).
+Not modelled: `GetMinerRank`/`GetMinersByRank` (content of the rank permutation), `Clone`, `vrfStartTime`,
+the datastore methods (`Read`/`Write`/`Delete`), `GetKey`.
 Core-only.
 -/
 namespace ZChain.Round
